@@ -1,24 +1,35 @@
 CFG = {
     "gen": [],
-    "props": ["EraVerif.Props.C06"],
+    "props": ["EraVerif.Props.C06", "EraVerif.Props.C06s"],
     "required_theorems": ["timeout_always_rebroadcasts", "view0_times_out", "newview_pulls_forward",
-                          "timeout_quorum_advances", "commit_quorum_advances", "honest_proposal_accepted"],
-    "technique": "Lean 4 enabling (no-deadlock) lemmas on the replica model for every Wf state + multi-replica simulation of real "
-                 "replicas: adversarial prefix then a fair synchronous suffix must commit new blocks (a stall is reported with the "
-                 "seed as replay)",
-    "level_text": "PARTIAL (by design, see DESIGN C06). Proved on the replica model for every well-formed state: a timer expiry "
-                  "always re-emits the timeout vote (and the new-view above view 0) whatever the phase; view 0 times out with a "
-                  "timeout vote only; any verified justification for a higher view is accepted from any member in any phase and "
-                  "moves the replica to that view; a timeout vote / commit vote that completes a quorum advances the view; the "
-                  "leader's own proposal built by create_proposal from the justification it was notified with passes every check of "
-                  "on_proposal at a replica in Prepare of that view. These are the steps of the synchronous recovery schedule; the "
-                  "composite statement (every correct replica commits within a bounded number of views with correct leaders) is NOT "
-                  "a kernel-checked theorem: it is exercised on real replicas — after an adversarial prefix (loss, duplication, "
-                  "partitions, restarts, Byzantine traffic) the network heals (Byzantine validators silent, every message delivered, "
-                  "timers fire when idle, missing blocks fetchable) and every correct store's head must grow within 6n+12 rounds.",
-    "level_note": "Not expressible in the model: wall-clock timers, tokio scheduling, real block-fetch latency — 'timeouts keep "
-                  "firing' and 'blocks can be fetched' are hypotheses realised by the scheduler of the simulation. Progress with "
-                  "Byzantine validators still active in the suffix is not covered.",
+                          "timeout_quorum_advances", "commit_quorum_advances", "honest_proposal_accepted",
+                          "no_reachable_state_blocks", "views_synchronise", "timeout_round_advances",
+                          "leader_proposal_accepted_everywhere", "sync_progress", "leader_rotation_bound",
+                          "progress_within_n_rounds"],
+    "technique": "Lean 4: enabling lemmas on the replica model + composite progress theorem over an explicit synchronous schedule on the "
+                 "global code-level system; multi-replica simulation of real replicas (adversarial prefix, slow-storage/crash episode, "
+                 "fair suffix must commit)",
+    "level_text": "Proof (model): (1) enabling lemmas for every well-formed replica state: a timer expiry always re-emits the timeout "
+                  "vote (and the new-view above view 0) whatever the phase; view 0 times out; any verified justification for a higher "
+                  "view is accepted from any member in any phase and moves the replica there; votes completing a quorum advance the "
+                  "view, in any delivery order; the leader's own proposal passes every check of on_proposal; no reachable state with a "
+                  "sane block store blocks. (2) The composite, on the global code-level system of C01r: from EVERY globally reachable "
+                  "state (any adversarial prefix: loss, duplication, crashes after any effect prefix, Byzantine messages), with at most "
+                  "f weight Byzantine and silent during the period, the explicit synchronous schedule (timers fire; the highest "
+                  "new-view reaches everybody; timers fire; all timeout votes delivered; the correct leader's proposal delivered; all "
+                  "commit votes delivered) is a legal run after which every correct replica holds a verifying commit certificate for "
+                  "one NEW block, is two views further, and every replica with the payload cached has handed the block to its store "
+                  "(`sync_progress`); a round with a faulty leader still advances every correct replica by exactly one view, so with "
+                  "round-robin leaders at most n-1 rounds pass before a correct leader's round commits (`progress_within_n_rounds`). "
+                  "Tie to the code: multi-replica simulation of real replicas — adversarial prefix, optionally a slow-storage episode "
+                  "followed by a crash of every node, then a fair synchronous suffix in which every correct store's head must grow "
+                  "within n+8 rounds (a stall is reported with the seed as replay); every modelled step is compared with the replica "
+                  "model.",
+    "level_note": "PARTIAL w.r.t. the runtime: wall-clock timers, tokio scheduling, real block-fetch latency are not in the model — "
+                  "'timeouts keep firing' and 'blocks can be fetched' are hypotheses (environment answers in the theorem, the "
+                  "scheduler in the simulation); Byzantine validators are silent in the synchronous period; replicas without the "
+                  "payload obtain the block by block sync (outside the model). Slow-storage episodes are run and monitored on the real "
+                  "replicas only (the model has no notion of a handler waiting for its disk).",
     "harness": "c06",
     "replay_by_seed": True,
     "n": {"quick": 900, "thorough": 30000},
